@@ -9,9 +9,17 @@
    length.  What is CHECKED per module and per run (translation validation /
    run-time monitor, Models/Monitor.v, extracted): the premise of that theorem
    at every executed stack instruction, declared cell types after every tick,
-   instruction boundaries, jump targets, stack depth at statement boundaries. *)
+   instruction boundaries, jump targets, stack depth at statement boundaries.
+   Control flow (Models/VerifierCfg.v, Proofs/VerifierCtl.v, VerifierCfgProofs.v):
+   a CERTIFICATE of stack types per code address that passes the local check
+   [check_cert] against the decoded code section is an invariant of every
+   execution inside the certified region of stack instructions - through jz /
+   jmp, loops included, for any number of instructions: no TYPE_MISMATCH,
+   STACK_EMPTY or host exception is ever raised there, memory and the event
+   trace are untouched, and [tick] answers exactly the state [exec] produced. *)
 From Coq Require Import ZArith List Bool.
-From QV Require Import Sx Strs Fl Cell Machine Cpu Verifier VerifierProofs.
+From QV Require Import Sx Strs Fl Cell Machine Cpu Verifier VerifierProofs ErrProofs
+     VerifierCfg VerifierCtl VerifierCfgProofs.
 Import ListNotations.
 Open Scope Z_scope.
 
@@ -36,3 +44,80 @@ Print Assumptions C03_no_type_confusion.
 Example C03_block_example :
   eff_list [IPushI 3; IPushI 4; IAdd; IConv 1 2; IPushL 2; ICmp; ILt; IJz 9] [] = Some [].
 Proof. vm_compute. reflexivity. Qed.
+
+(* ---------- control flow: certificates ---------- *)
+
+(* one tick at a certified address (any state satisfying the invariant):
+   the instruction there is a stack instruction typed by the certificate;
+   if it completes, tick returns exactly that state, stack types are the
+   abstract result, memory / frame / trace are unchanged and the invariant
+   holds again; otherwise it raised a value trap (or ZeroDivisionError, which
+   tick turns into a trap) - never a type trap, never a host exception *)
+Theorem C03_cfg_step : forall m c s t,
+  check_cert m c = true -> Inv c s -> cert_at c (pc s) = Some t ->
+  exists i size t',
+    decode (skipn (Z.to_nat (pc s)) (m_code m)) = DOk i size /\ eff i (tys (stack s)) = Some t' /\
+    match exec m i (pre_exec s size) with
+    | R _ s3 =>
+      tick m s = end_check m (Next s3) /\
+      tys (stack s3) = t' /\ heap s3 = heap s /\ cur s3 = cur s /\ events s3 = events s /\
+      Inv c s3 /\ (cert_at c (pc s3) <> None -> tick m s = Next s3)
+    | T cd kw _ => ok_trap cd = true /\ kw = true
+    | ZD _ => True
+    | X _ _ => False
+    | NI _ => False
+    end.
+Proof. exact cfg_step. Qed.
+Print Assumptions C03_cfg_step.
+
+(* any number of instructions inside the region, loops included *)
+Theorem C03_cfg_run : forall m c,
+  check_cert m c = true ->
+  forall n s s', Inv c s -> qsteps m c n s s' ->
+  Inv c s' /\ heap s' = heap s /\ cur s' = cur s /\ events s' = events s.
+Proof. exact cfg_run. Qed.
+Print Assumptions C03_cfg_run.
+
+(* ... and the instruction reached after them is again executed on a stack of
+   the certified types, with the guarantees of C03_instruction_type_safety *)
+Theorem C03_cfg_no_type_confusion : forall m c,
+  check_cert m c = true ->
+  forall n s s' t, Inv c s -> qsteps m c n s s' -> cert_at c (pc s') = Some t ->
+  exists i size t',
+    decode (skipn (Z.to_nat (pc s')) (m_code m)) = DOk i size /\
+    eff i (tys (stack s')) = Some t' /\ tys (stack s') = t /\
+    safe_out i (pre_exec s' size) t' (exec m i (pre_exec s' size)).
+Proof. exact cfg_no_type_confusion. Qed.
+Print Assumptions C03_cfg_no_type_confusion.
+
+(* stack instructions move the program counter only through jmp / jz and leave
+   the halt and interrupt flags alone *)
+Theorem C03_stack_instr_control : forall m i s t',
+  eff i (tys (stack s)) = Some t' -> ctl_post i s (exec m i s).
+Proof. exact eff_ctl. Qed.
+Print Assumptions C03_stack_instr_control.
+
+(* non-vacuity: a counting loop
+      0: push% 3   3: dupl   4: jz 18   9: push% 1   12: sub   13: jmp 3   18: pop   19: halt
+   with its certificate (address 19, the halt, is outside the region); the
+   machine really goes round the loop three times: 19 ticks from the initial
+   state end at address 19 with an empty stack *)
+Definition ex_code : list Z :=
+  [39;0;3; 103; 29;0;0;0;18; 39;0;1; 93; 28;0;0;0;3; 104; 100].
+Definition ex_mod : module := mkModule ex_code [] [] 0 None.
+Definition ex_cert : cert :=
+  [(0, []); (3, [1]); (4, [1; 1]); (9, [1]); (12, [1; 1]); (13, [1]); (18, [1])].
+Example C03_cfg_example :
+  check_cert ex_mod ex_cert = true /\
+  Inv ex_cert (init_state ex_mod (mkScript [] [] [] [])) /\
+  (match ticks ex_mod 19 (init_state ex_mod (mkScript [] [] [] [])) with
+   | Some s => pc s = 19 /\ stack s = [] /\ halted s = false
+   | None => False
+   end) /\
+  (* a certificate claiming an INTEGER where the code leaves two is rejected *)
+  check_cert ex_mod [(0, []); (3, [1]); (4, [1])] = false.
+Proof.
+  split; [vm_compute; reflexivity|]. split.
+  - split; [reflexivity|]. cbn. intros t H. inversion H. reflexivity.
+  - split; [vm_compute; repeat split; reflexivity | vm_compute; reflexivity].
+Qed.
